@@ -58,8 +58,20 @@ Inductive op :=
 | OSpSortAbs (slot : bool)
 | OSpQuery (slot : bool) (n : str)              (* Get, GetAll, Has, String, and the whole list *)
 | OSpTouch (slot : bool)                        (* u.SearchParams() *)
-| OSpAdopt (slot : bool).                       (* slot.SetSearchParams(other.SearchParams()): the URL's own list
+| OSpAdopt (slot : bool)                       (* slot.SetSearchParams(other.SearchParams()): the URL's own list
                                                    becomes a copy of the other URL's list, its query follows *)
+| OSpIterate (slot : bool) (mode : N).          (* u.SearchParams().Iterate(callback): the callback may edit the pairs it is
+                                                   handed, the list is written back afterwards. mode 0: a callback that
+                                                   changes nothing (the query is still re-serialized); other modes: on every
+                                                   call the callback appends "!" to the value of the FIRST pair of the list *)
+
+(* what the callback of OSpIterate does to the list *)
+Definition iterate_edit (mode : N) (l : list (str * str)) : list (str * str) :=
+  match mode, l with
+  | 0, _ => l
+  | _, [] => []
+  | _, (n, v) :: t => (n, v ++ repeat 33 (length l)) :: t
+  end.
 
 Section Hist.
   Variable idna_raw : str -> str * bool.
@@ -141,6 +153,7 @@ Section Hist.
         | None => (s, [])
         | Some u => (put s slot (Some (fst (ensure_sp c u))), [])
         end
+    | OSpIterate slot mode => (with_sp s slot (iterate_edit mode), [])
     | OSpAdopt slot =>
         match get s slot, get s (negb slot) with
         | Some u, Some v =>
